@@ -193,12 +193,39 @@ def modules():
 
 
 def loop_program(name, stmt, times):
-    """The statement `times` times inside one activation (module level), then the check that nothing was clobbered."""
-    return PRELUDE + "var i_ = 0;\nwhile i_ < %d {\n  i_ = i_ + 1;\n  %s\n}\n%s\nprint(\"done\");\n" % (times, stmt, CHECK)
+    """The statement `times` times inside one activation of a function whose last two locals stand directly below whatever the statement
+    pushes: they must keep their values on every pass (a value written one slot too low lands on them); then the check that nothing
+    else was clobbered."""
+    return PRELUDE + ("fn run_() {\n  var guard1_ = \"g1\";\n  var i_ = 0;\n  var guard2_ = \"g2\";\n  while i_ < %d {\n    i_ = i_ + 1;\n    %s\n"
+                      "    if guard2_ != \"g2\" || guard1_ != \"g1\" { print(\"CLOBBERED local\"); return; }\n  }\n}\nrun_();\n%s\nprint(\"done\");\n") % (times, stmt, CHECK)
 
 
 def loop_programs(times, forms=None):
     return [("stmtloop:" + name, loop_program(name, stmt, times), modules()) for name, stmt in (forms or FORMS)]
+
+
+FAIL_PRELUDE = ("#[constructor(new)] class K { fn m(self) { return 1; } }\nfn deep_recursion(k) { return deep_recursion(k + 1); }\n"
+                "var done_fiber = Fiber.new(|| 1); done_fiber.call();\n")
+
+
+def failing_forms():
+    """Every built-in failure of the C08 catalogue (wrong operand kinds, bad indices, wrong arities, unknown names, misuse of fibers, failing
+    natives, ...), raised and CAUGHT in the statement itself: what the failed operation had pushed must be gone, nothing below it touched."""
+    from props import c08
+    out = []
+    for k, (src, _cls) in enumerate(c08.BUILTIN_FAILURES):
+        if "host_raise" in src:
+            continue
+        out.append(("fail-%d" % k, "try { z = %s; } catch e { z = e; }" % src))
+    for k, (src, _cls) in enumerate(c08.BUILTIN_STATEMENTS):
+        if "bad_syntax_module" in src or "class Bad" in src:
+            continue
+        out.append(("failstmt-%d" % k, "try { %s } catch e { z = e; }" % src))
+    return out
+
+
+def failing_loop_programs(times):
+    return [("stmtloop:" + name, FAIL_PRELUDE + loop_program(name, stmt, times), modules()) for name, stmt in failing_forms()]
 
 
 def forms_without_finally():
